@@ -75,6 +75,9 @@ Proof.
   - kill_if H. injection H as <-. auto.
   - injection H as <-. cbn. intros [<-|Hk]; auto.
   - injection H as <-. rewrite (proj1 (proj2 (proj2 (add_hold_fields s t)))). auto.
+  - injection H as <-. auto.
+  - kill_if H. injection H as <-. auto.
+  - destruct (crash_mode s); [injection H as <-; auto|]. kill_if H. injection H as <-. auto.
 Qed.
 
 Lemma exec_done c tr : forall s s' k,
@@ -810,4 +813,73 @@ Proof.
   unfold fix_task. destruct (forallb keep (p_sat p)) eqn:E; cbn; repeat (split; [reflexivity|]); intros k.
   - rewrite forallb_forall in E. split; [intros Hk; split; [exact Hk|apply Hne; auto]|tauto].
   - rewrite filter_In, Hne. tauto.
+Qed.
+
+(* ------------------------------------------------------------------ *)
+(* broadcasts (C19, C22 at scheduler level)                             *)
+(* ------------------------------------------------------------------ *)
+Lemma store_bcast s p inp : bcast (store s p inp) = bcast s.
+Proof. unfold store; destruct inp; reflexivity. Qed.
+Lemma add_hold_bcast s t : bcast (add_hold s t) = bcast s.
+Proof. unfold add_hold. destruct (mem tid_eqb t (to_hold s)); reflexivity. Qed.
+Lemma fold_add_hold_bcast ids : forall s, bcast (fold_left add_hold ids s) = bcast s.
+Proof. induction ids as [|t r IH]; intros s; cbn; [reflexivity|]. rewrite IH. apply add_hold_bcast. Qed.
+
+Ltac bcast_crush H :=
+  repeat (match type of H with
+          | (match ?x with _ => _ end) = Ok _ => destruct x eqn:?; try discriminate H
+          | (if ?b then _ else _) = Ok _ => destruct b eqn:?; try discriminate H
+          end);
+  try (injection H as <-);
+  repeat match goal with |- context [if ?b then _ else _] => destruct b end;
+  cbn [bcast with_pool with_limbo with_hist with_subs with_limit with_relq with_done with_hold with_stop
+       with_saved with_crash with_abs with_bcast];
+  repeat (rewrite ?store_bcast, ?add_hold_bcast, ?fold_add_hold_bcast;
+          cbn [bcast with_pool with_limbo with_hist with_subs with_limit with_relq with_done with_hold with_stop
+               with_saved with_crash with_abs with_bcast]);
+  try reflexivity.
+
+(* only a broadcast event changes the broadcasts in force (or, after a crash, adopting what was committed) *)
+Lemma step_bcast c s e s' :
+  step c s e = Ok s' ->
+  bcast s' = bcast s \/ (exists n, e = EBcast n) \/ (exists n, e = EBcastLoaded n /\ crash_mode s = true).
+Proof.
+  intros H. destruct e; cbn [step] in H;
+    try (left; bcast_crush H; fail).
+  - right. left. eauto.
+  - destruct (crash_mode s) eqn:Ec; [right; right; eauto|]. left. bcast_crush H.
+Qed.
+
+Theorem bcast_db_agrees c s n s' : step c s (EBcastDb n) = Ok s' -> n = bcast s /\ s' = s.
+Proof. cbn [step]. destruct (Nat.eqb n (bcast s)) eqn:E; [|discriminate]. intros [= <-]. split; [now apply Nat.eqb_eq|reflexivity]. Qed.
+
+Theorem bcast_restored c s n s' :
+  step c s (EBcastLoaded n) = Ok s' -> crash_mode s = false -> n = bcast s /\ s' = s.
+Proof.
+  cbn [step]. intros H Hc. rewrite Hc in H. destruct (Nat.eqb n (bcast s)) eqn:E; [|discriminate].
+  injection H as <-. split; [now apply Nat.eqb_eq|reflexivity].
+Qed.
+
+(* over a stretch of history without broadcast events (in particular: a stop and restart), the broadcasts in
+   force are unchanged ... *)
+Theorem bcast_frame c tr : forall s s',
+  exec c s tr = Some s' ->
+  (forall n, ~ In (EBcast n) tr) -> (forall n, ~ In (EBcastLoaded n) tr) -> bcast s' = bcast s.
+Proof.
+  induction tr as [|e r IH]; intros s s' H H1 H2; cbn [exec] in H; [injection H as <-; reflexivity|].
+  destruct (step c s e) as [s1|] eqn:E; [|discriminate].
+  rewrite (IH s1 s' H); [|intros n Hn; apply (H1 n); now right|intros n Hn; apply (H2 n); now right].
+  destruct (step_bcast _ _ _ _ E) as [Hb|[[n ->]|[n [-> _]]]]; [exact Hb| |].
+  - exfalso. apply (H1 n). now left.
+  - exfalso. apply (H2 n). now left.
+Qed.
+
+(* ... so what an accepted clean restart loaded is what was in force when the stretch began *)
+Theorem restart_gives_broadcasts_back c tr s0 s1 n s2 :
+  exec c s0 tr = Some s1 -> step c s1 (EBcastLoaded n) = Ok s2 -> crash_mode s1 = false ->
+  (forall m, ~ In (EBcast m) tr) -> (forall m, ~ In (EBcastLoaded m) tr) ->
+  n = bcast s0 /\ bcast s2 = bcast s0.
+Proof.
+  intros H Hs Hc H1 H2. destruct (bcast_restored _ _ _ _ Hs Hc) as [-> ->].
+  split; apply (bcast_frame _ _ _ _ H H1 H2).
 Qed.
